@@ -5,6 +5,7 @@ import DryocVerif.Spec.X25519
 import DryocVerif.Spec.Ed25519
 import DryocVerif.Proofs.Curve
 import DryocVerif.Properties.C05
+import DryocVerif.Proofs.GenCurve
 /-
 C13 — deterministic key pairs and the Ed25519 → Curve25519 conversion
 (/repo/src/classic/crypto_box_impl.rs, crypto_kx.rs, crypto_sign_ed25519.rs, keypair.rs).
@@ -203,5 +204,11 @@ example :
     boxSeedKeypair { specPrims with sha512 := fun _ => zeros 64 } [1, 2, 3] =
       (Spec.X25519.x25519Base (zeros 32), zeros 32) := by
   set_option maxRecDepth 100000 in decide
+
+/-- tie to the source: `crypto_sign_ed25519.rs::clamp_hash` as translated (regenerated on every run) = the model's
+`clampHash` on every hash of at least 32 bytes (the Rust type is `[u8; 64]`) -/
+theorem translated_clamp_hash (hash : Bytes) (hh : 32 ≤ hash.length) :
+    Gen.Curve.clamp_hash hash = Model.Sign.clampHash hash :=
+  Proofs.GenCurve.clamp_hash_eq_model hash hh
 
 end DryocVerif.Properties.C13
